@@ -35,7 +35,10 @@ func refFloatText(x float64) string {
 	for v.Cmp(scaleRat(big.NewInt(1), nn-1)) < 0 {
 		nn--
 	}
-	for k := 1; k <= 18; k++ {
+	// try(k): the best k-digit decimal that reads back as x, if any.  If k
+	// digits suffice so do k+1 (the set of reals rounding to x is an interval
+	// around v), so the smallest k is found by bisection.
+	try := func(k int) (string, bool) {
 		e := nn - k
 		q := new(big.Rat).Quo(v, scaleRat(big.NewInt(1), e))
 		lo := new(big.Int).Quo(q.Num(), q.Denom())
@@ -56,10 +59,23 @@ func refFloatText(x float64) string {
 				best, bestDist = m, dist
 			}
 		}
-		if best != nil {
-			s := best.String()
-			return esLayout(x < 0, strings.TrimRight(s, "0"), e+len(s))
+		if best == nil {
+			return "", false
 		}
+		s := best.String()
+		return esLayout(x < 0, strings.TrimRight(s, "0"), e+len(s)), true
+	}
+	lo, hi := 1, 17 // 17 digits always round-trip
+	for lo < hi {
+		mid := (lo + hi) / 2
+		if _, ok := try(mid); ok {
+			hi = mid
+		} else {
+			lo = mid + 1
+		}
+	}
+	if s, ok := try(lo); ok {
+		return s
 	}
 	return "?" // unreachable: 17 digits always round-trip
 }
